@@ -307,6 +307,13 @@ func (c *Chunk) ReadFrom(r io.Reader) (int64, error) {
 	}
 
 	bitsForHeight := bits.Len( /* chunk height in blocks */ uint(len(c.Sections))*16 + 1)
+	wantLen := calcBitStorageSize(bitsForHeight, 16*16)
+	if heightmaps.MotionBlocking != nil && len(heightmaps.MotionBlocking) != wantLen {
+		return n, newBitStorageErr{ArrlLen: len(heightmaps.MotionBlocking), WantLen: wantLen}
+	}
+	if heightmaps.WorldSurface != nil && len(heightmaps.WorldSurface) != wantLen {
+		return n, newBitStorageErr{ArrlLen: len(heightmaps.WorldSurface), WantLen: wantLen}
+	}
 	c.HeightMaps.MotionBlocking = NewBitStorage(bitsForHeight, 16*16, heightmaps.MotionBlocking)
 	c.HeightMaps.WorldSurface = NewBitStorage(bitsForHeight, 16*16, heightmaps.WorldSurface)
 
